@@ -11,7 +11,8 @@ package plenccore
 //@   assigns nothing
 //@   ensures[C18,C04] -11 <= r1 && r1 <= 10 && r1 <= len(buf)
 //@   ensures[C18] forall u uint64 :: len(buf) >= vlen(u) && at(buf, 0, venc(u), 10) ==> r0 == u && r1 == vlen(u)
-//@   ensures[C18,C04] r1 > 0 ==> vterm(buf, r1) && r0 == vsum(buf, r1)      # complete: what was read is what the bytes say
+//@   ensures[C18,C04] r1 > 0 ==> vterm(buf, r1)
+//@   localensures[C18] r1 > 0 ==> r0 == vsum(buf, r1)      # complete: what was read is what the bytes say
 //@   ensures[C18,C04] len(buf) == 0 ==> r1 == 0
 
 //@ func plenccore.ReadVarUint
@@ -19,7 +20,8 @@ package plenccore
 //@   assigns nothing
 //@   ensures[C18,C04] -11 <= n && n <= 10 && n <= len(data)
 //@   ensures[C18] forall u uint64 :: len(data) >= vlen(u) && at(data, 0, venc(u), 10) ==> v == u && n == vlen(u)
-//@   ensures[C18,C04] n > 0 ==> vterm(data, n) && v == vsum(data, n)
+//@   ensures[C18,C04] n > 0 ==> vterm(data, n)
+//@   localensures[C18] n > 0 ==> v == vsum(data, n)
 //@   ensures[C18,C04] len(data) == 0 ==> n == 0
 
 //@ func plenccore.SizeVarUint
@@ -66,7 +68,8 @@ package plenccore
 //@   ensures[C18,C04] -11 <= n && n <= 10 && n <= len(data)
 //@   ensures[C18,C04] 0 <= wt && wt <= 7
 //@   ensures[C18,C04] 0 <= index && index < (1 << 61)
-//@   ensures[C18,C04] n > 0 ==> vterm(data, n) && uint64(wt) == (vsum(data, n) & 7) && uint64(index) == (vsum(data, n) >> 3)
+//@   ensures[C18,C04] n > 0 ==> vterm(data, n)
+//@   localensures[C18] n > 0 ==> uint64(wt) == (vsum(data, n) & 7) && uint64(index) == (vsum(data, n) >> 3)
 //@   ensures[C18] forall w uint8 :: forall i int :: validwt(w) && 0 <= i && i < (1 << 60) && len(data) >= vlen(tagval(w, i)) && at(data, 0, venc(tagval(w, i)), 10) \
 //@                   ==> uint8(wt) == w && index == i && n == vlen(tagval(w, i))
 //@   ensures[C18,C04] len(data) == 0 ==> n == 0
